@@ -8,7 +8,7 @@ VERIF = os.path.dirname(os.path.dirname(os.path.abspath(__file__)))
 props = [json.loads(l) for l in open(os.path.join(VERIF, "properties.jsonl"))]
 
 TEXT = {
-    "C01": ("Runtime monitoring: after every event of real single-thread histories (random, scenario-seeded, and breadth-first replay to a fixpoint of the abstract joint state) of every primitive family and flavour, a hook walks the primitive's wait queue / heap under the primitive's own lock and compares it with the harness's registry of live pending futures; the same histories run under Miri and AddressSanitizer (boxed futures: a dangling waiter is a real freed block), threaded workloads with cancellation on foreign threads run natively with injected delays, under Miri seeds and under ThreadSanitizer.", "§4.C01"),
+    "C01": ("Runtime monitoring: after every event of real single-thread histories (random, scenario-seeded, and breadth-first replay to a fixpoint of the abstract joint state) of every primitive family and flavour, a hook walks the primitive's wait queue / heap under the primitive's own lock and compares it with the harness's registry of live futures and with each node's own poll state (queue membership <=> the node says it is waiting); the same histories run under Miri and AddressSanitizer (boxed futures: a dangling waiter is a real freed block), threaded workloads with cancellation on foreign threads run natively with injected delays, under Miri seeds and under ThreadSanitizer.", "§4.C01"),
     "C02": ("Runtime monitoring: guard count kept by the harness vs every poll/try_lock result and is_locked() after every event (both fairness modes, three lock flavours, fixpoint + random histories); threaded: non-atomic counter under the guard with a Relaxed in-critical-section flag, under Miri's and TSan's race detectors.", "§4.C02"),
     "C03": ("Runtime monitoring: 'mutex free and somebody pending implies somebody (fair: the longest waiter) was woken through the waker of its latest poll' evaluated after every event of fixpoint + random histories with identity wakers; threaded looping tasks with cancellation where a lost wake-up is a logical deadlock.", "§4.C03"),
     "C04": ("Runtime monitoring: arrival stamps kept by the harness; every completion on a fair mutex is checked against the pending set (fixpoint + random histories).", "§4.C04"),
@@ -27,7 +27,7 @@ TEXT = {
     "C17": ("Runtime monitoring: is_terminated() sampled after every event of every history for every future type vs the harness's completion record; poll-after-completion must panic; stream items vs reference FIFO.", "§4.C17"),
     "C18": ("Runtime monitoring: counting global allocator armed exactly around crate calls over every history (local, thread-safe, shared flavours).", "§4.C18"),
     "C19": ("Runtime monitoring: differential test of the three ring buffers against VecDeque with drop-counting and boxed elements, natively, under Miri and ASan.", "§4.C19"),
-    "C20": ("Runtime monitoring: differential test of the intrusive list / pairing heap against VecDeque / sorted multiset with a structural validator after every operation, natively (also with debug assertions), under Miri and ASan; structural riders on every primitive history.", "§4.C20"),
+    "C20": ("Runtime monitoring: differential test of the intrusive list / pairing heap against VecDeque / sorted multiset with a structural validator after every operation, natively (also with debug assertions), under Miri and ASan (the data structures are driven in isolation: exhaustive sweep of all operation sequences to a depth, fixpoint of the abstract state, random long sequences).", "§4.C20"),
 }
 NOTE = ("Held = held on the executions this run produced (counts in the evidence file). Trusted: rustc/LLVM, Miri / sanitizer runtimes, "
         "the harness's registries, identity wakers and reference models (validated against seeded breaks, DESIGN.md §7). "
